@@ -14,8 +14,9 @@ ASSUMPTIONS = [
     "probed in the bounded suite for the alphabet used and per code point in thorough)",
     "deductively decided: interval_overlap, Chunk.width, FmtStr.width (memo), width_at_offset, the per-character cutter "
     "width_aware_slice(s, a, b) (two loops: column prefix sums, then the cut, against the fold BCUT written from the statement) and the run "
-    "walk FmtStr.width_aware_slice(slice(a, b)), 0 <= a <= b (over the cutter's contract, ghost fold RUNCUT); int / open / negative indices "
-    "of the method are covered by the bounded suite only",
+    "walk FmtStr.width_aware_slice(index) for EVERY index form - an int (one column, IndexError outside -width..width-1), slices with open, "
+    "negative, reversed (start > stop: nothing) and past-the-end bounds - over the cutter's contract (which holds for start > end too), "
+    "normalize_slice's contract (exact normalised bounds) and the ghost fold RUNCUT over the column range the index denotes",
     "fold lemma schemas used as ground instances by the run walk - BCUT(s,a,b) is empty when b <= 0 or a >= width(s); equals the "
     "column-occupying characters of s when a <= 0 and b >= width(s); BCUT(s,a,b) == BCUT(s,max(0,a),b); RUNCUT splits at a run boundary - "
     "need induction: proved in Lean 4 (lean/Columns.lean, type-checked by bin/setup) and re-validated on every run by exhaustive "
@@ -58,9 +59,29 @@ def is_subsequence(xs, ys):
     return all(any(x == y for y in it) for x in xs)
 
 
-def cut_case(f, a, b):
+def index_case(f, total, index):
+    """the other spellings of a column range: an int (one column; IndexError outside -width..width-1), open and negative slice bounds
+    (normalised like Python's own slicing of a sequence of `width` columns)"""
+    if isinstance(index, int):
+        if not (-total <= index < total):
+            try:
+                r = f.width_aware_slice(index)
+            except IndexError:
+                return ""
+            except Exception as e:      # noqa: BLE001
+                return f"raised {type(e).__name__}: {e} (IndexError expected: there is no column {index})"
+            return f"returned {r!r} for column {index} of a value {total} columns wide (IndexError expected)"
+        a = index % total
+        b = a + 1
+    else:
+        a, b, _ = index.indices(total)
+        b = max(a, b)
+    return cut_case(f, a, b, index=index)
+
+
+def cut_case(f, a, b, index=None):
     try:
-        r = f.width_aware_slice(slice(a, b))
+        r = f.width_aware_slice(slice(a, b) if index is None else index)
     except Exception as e:
         return f"raised {type(e).__name__}: {e}"
     base, zw, width = expected_cut(f, a, b)
@@ -85,6 +106,9 @@ def replay(case):
     f = FmtStr(Chunk(s[:i], ATTS[0]), Chunk(s[i:j], ATTS[1]), Chunk(s[j:], ATTS[2]))
     if case["kind"] == "cut":
         d = cut_case(f, case["a"], case["b"])
+    elif case["kind"] == "index":
+        ix = case["index"]
+        d = index_case(f, sum(wcwidth(c) for c in s), ix if isinstance(ix, int) else slice(*ix))
     else:
         d = width_case(f, s)
     return d == "", d
@@ -139,6 +163,15 @@ def bounded(check, tier):
                         if d:
                             case = dict(layout=list(key), kind="cut", a=a, b=b)
                             s.fail("C10.width_aware_slice", case, d, replay={"kind": "suite", "module": "props.C10", "case": case})
+                # int, open and negative indices
+                forms = list(range(-w - 2, w + 2)) + [slice(x, y) for x in [None] + list(range(-w - 1, w + 2)) for y in [None] + list(range(-w - 1, w + 2))
+                                                      if x is None or y is None or x < 0 or y < 0]
+                for ix in forms:
+                    s.case(("i", key, repr(ix)))
+                    d = index_case(f, w, ix)
+                    if d:
+                        case = dict(layout=list(key), kind="index", index=ix if isinstance(ix, int) else [ix.start, ix.stop])
+                        s.fail("C10.width_aware_slice.index_forms", case, f"index {ix!r}: {d}", replay={"kind": "suite", "module": "props.C10", "case": case})
     # the module-level cutter on mixed runs (balanced wide/combining counts) and interval_overlap on all small intervals
     for a, b, x, y in itertools.product(range(-1, 5), repeat=4):
         if a <= b and x <= y:
